@@ -28,6 +28,7 @@ structure Call where
 structure Thr where
   priv : List (Loc × Val) := []
   ridx : Nat := 0                      -- gp: reader index (from `READER n`)
+  lastIter : String := ""              -- lfht: node of the thread's last iterator (RET lookup / first / next / next_dup)
   cur : Option Call := none
   deriving Inhabited
 
@@ -38,6 +39,8 @@ structure D where
   cov : List (String × Nat) := []
   compared : Nat := 0
   events : Nat := 0
+  nodeHash : List (Nat × Nat) := []    -- lfht: node id ↦ hash (from the CALL add* markers)
+  buckets : List String := []          -- lfht: bucket names b<index>_<generation> seen so far
   gpctr : Val := .int 1                -- last value stored to gp.ctr by anyone (plain-read by the updater under the gp lock)
   searchRuns : Nat := 0
 
@@ -49,6 +52,7 @@ def flavor (mode : String) : String := (mode.drop 3).toString        -- "gp-memb
 
 /-- object numbering of the stack / queue scenarios: n<k> ↦ k, q<j>h ↦ 1000+j, q<j>t ↦ 2000+j, the stack ↦ 3000 -/
 def objOfName (s : String) : Option Nat :=
+  if s.startsWith "node" && s.contains '|' then none else
   if s.startsWith "node" then (s.drop 4).toString.toNat?
   else if s.startsWith "dummy" then (s.drop 5).toString.toNat?.map (· + 500)
   else if s.startsWith "n" then (s.drop 1).toString.toNat?
@@ -85,8 +89,18 @@ def cbStr (n : Int) : Option String :=
     some (s!"&cb{idx / 100}_{idx % 100}" ++ (if bits == 0 then "" else s!"|{bits}"))
   else none
 
+def bitrev64 (n : Nat) : Nat := (List.range 64).foldl (fun acc i => if n.testBit i then acc + 2 ^ (63 - i) else acc) 0
+
 def valOf (s : String) : Except String Val :=
   if (cbOf s).isSome then .ok (.int ((cbOf s).getD 0)) else
+  -- lfht: `&name|flags`
+  if s.startsWith "&" && s.contains '|' && !(s.startsWith "&cb") then
+    match (s.drop 1).toString.splitOn "|" with
+    | [nm, fl] =>
+      let base : Loc := match objOfName nm with | some k => .obj k | none => .glob nm
+      .ok (.ptr (base.withTag (fl.toNat?.getD 0)))
+    | _ => .error s!"unparsed tagged pointer {s}"
+  else
   if s.startsWith "&" then
     match objOfName (s.drop 1).toString with
     | some k => .ok (.ptr (.obj k))
@@ -101,13 +115,17 @@ def valStr (mode : String := "") : Val → String
       | some s => s
       | none => if n ≥ 9223372036854775808 then toString (n - 18446744073709551616) else toString n
     else toString n
-  | .ptr (.obj k) => "&" ++ (if mode == "lfq" then objNameLfq k else objName k)
   | .ptr (.field (.obj k) "node") => "&" ++ objName k
-  | .ptr (.glob g) => if g.startsWith "stack" then s!"&{g}" else s!"&?{g}"
+  | .ptr (.field (.obj k) tg) =>
+    if tg.startsWith "|" then "&" ++ (if mode == "lfht" then s!"node{k}" else objName k) ++ tg else s!"&?{k}.{tg}"
+  | .ptr (.field (.glob g) tg) => if tg.startsWith "|" then s!"&{g}{tg}" else s!"&?{g}.{tg}"
+  | .ptr (.obj k) => "&" ++ (if mode == "lfq" then objNameLfq k else if mode == "lfht" then s!"node{k}" else objName k)
+  | .ptr (.glob g) => if g.startsWith "stack" || (mode == "lfht" && !g.startsWith "&") then s!"&{g}" else s!"&?{g}"
   | .ptr l => s!"&?{repr l}"
 
 def locStr (mode : String) (r : Nat) : Loc → String
   | .field (.glob g) f =>
+    if mode == "lfht" && f == "next" then g else
     if g == s!"urcu_{flavor mode}_gp" || g == "rcu_gp" then s!"gp.{f}"
     else if g.startsWith "&" || g.startsWith "stack" then s!"?{g}.{f}"
     else s!"{g}.{f}"
@@ -124,6 +142,7 @@ def locStr (mode : String) (r : Nat) : Loc → String
   | .field (.tls g) f =>
     if g == s!"urcu_{flavor mode}_reader" then s!"reader{r}.{f}" else s!"tls:{g}.{f}"
   | .field (.obj k) f =>
+    if mode == "lfht" then (if f == "next" then s!"node{k}" else s!"node{k}.{f}") else
     if mode.startsWith "gp" then s!"reader{k}.{f}"
     else if mode == "lfq" then (if k == 3000 then s!"q.{f}" else if f == "next" then objNameLfq k else s!"{objNameLfq k}.{f}")
     else if k == 3000 && f == "head" then "head"
@@ -166,7 +185,7 @@ def evWords (mode : String) (r : Nat) : Event → Option (List String)
   | .ext "cds_list_for_each_entry_safe.next" _ _ => none
   | .ext "poll" _ _ => some ["POLL"]
   | .ext "CDS_WFCQ_WAIT_SLEEP" _ _ => some ["POLL"]
-  | .ext name _ _ => some ["EXT", name]
+  | .ext name _ _ => if mode == "lfht" && name != "abort" then none else some ["EXT", name]
 
 /-- the oracle value a trace line delivers (value-returning accesses only) -/
 def oracleOf : List String → Except String (Option Val)
@@ -249,6 +268,17 @@ def callSpec (d : D) (ws : List String) : Option (String × Stmt × List String 
   | "gp-mb", ["unlock"] => some ("mb.unlock", «_urcu_mb_read_unlock», [], [])
   | "gp-bp", ["lock"] => some ("bp.lock", «_urcu_bp_read_lock», [], [])
   | "gp-bp", ["unlock"] => some ("bp.unlock", «_urcu_bp_read_unlock», [], [])
+  | "lfht", ["add", n, h, _k] =>
+    (node n).map fun v => ("lfht.add", «lfht.cds_lfht_add», «lfht.cds_lfht_add.params», [.ptr (.glob "ht"), .int (h.toNat?.getD 0), v])
+  | "lfht", ["add_unique", n, h, k] =>
+    (node n).map fun v => ("lfht.add_unique", «lfht.cds_lfht_add_unique», «lfht.cds_lfht_add_unique.params»,
+      [.ptr (.glob "ht"), .int (h.toNat?.getD 0), .int 77, .int (k.toNat?.getD 0), v])
+  | "lfht", ["add_replace", n, h, k] =>
+    (node n).map fun v => ("lfht.add_replace", «lfht.cds_lfht_add_replace», «lfht.cds_lfht_add_replace.params»,
+      [.ptr (.glob "ht"), .int (h.toNat?.getD 0), .int 77, .int (k.toNat?.getD 0), v])
+  | "lfht", ["lookup", h, k] =>
+    some ("lfht.lookup", «lfht.cds_lfht_lookup», «lfht.cds_lfht_lookup.params»,
+      [.ptr (.glob "ht"), .int (h.toNat?.getD 0), .int 77, .int (k.toNat?.getD 0), .ptr (.glob "&iter")])
   | "defer", ["defer", f, p] =>
     match valOf f, valOf p with
     | .ok fv, .ok pv =>
@@ -311,12 +341,12 @@ def initPriv (d : D) (r : Nat) : List (Loc × Val) :=
 /-- depth-first search for the oracle values the trace does not show (answers of the list operations): the traced values are
 consumed in order, an untraced value is one of `choices`; a branch dies at the first event that differs from the trace -/
 partial def dfs (run : List Val → Except String Out) (got : Out → List (List String)) (evw : Event → Option (List String))
-    (lines : List (List String))
+    (extc : String → List Val → Option (List Val)) (lines : List (List String))
     (complete : Bool) (choices : List Val) (inp tv : List Val) (budget : Nat) (best : Nat × String) :
     Option (Out × Nat) × Nat × (Nat × String) :=
   if budget == 0 then (none, 0, best) else
   match run inp with
-  | .error e => (none, budget - 1, if best.1 == 0 then (0, "IR error: " ++ e) else best)
+  | .error e => (none, budget - 1, if best.1 == 0 then (0, s!"IR error after {inp.length} oracle values {repr inp}: " ++ e) else best)
   | .ok out =>
     let g := got out
     match unifyPrefix g lines with
@@ -331,22 +361,26 @@ partial def dfs (run : List Val → Except String Out) (got : Out → List (List
       else
         -- which access is waiting for a value?  probe it: the event that consumes the next value is events[m]
         let m := out.events.length
-        let probe := match run (inp ++ [.int 0]) with
+        -- (a probe value may make the run fail further on: try an integer, then pointers)
+        let probe := [Val.int 0, Val.int 1, Val.ptr (.obj 1), Val.ptr (.glob "probe")].findSome? fun pv =>
+          match run (inp ++ [pv]) with
           | .ok o' => o'.events[m]?
           | .error _ => none
         let cands : List (Val × List Val) := match probe with
           | some e =>
             if (evw e).isSome then (match tv with | v :: rest => [(v, rest)] | [] => [])       -- a traced access: the traced value
             else match e with
-              | .ext name _ _ =>
+              | .ext name eargs _ =>
+                if (extc name eargs).isSome then ((extc name eargs).getD []).map (fun c => (c, tv)) else
                 if name ∈ ["cds_list_move", "cds_list_splice", "errno"] && name != "errno" then [(.int 0, tv)]   -- no result used
                 else if name == "errno" then (match tv with | v :: rest => [(v, rest)] | [] => [])
                 else choices.map (fun c => (c, tv))
               | _ => choices.map (fun c => (c, tv))
           | none => (match tv with | v :: rest => [(v, rest)] | [] => []) ++ choices.map (fun c => (c, tv))
+        let best := if n ≥ best.1 then (n, s!"matched {n} events, then waiting at {(probe.map (fun e => repr e)).getD "?"} with {cands.length} candidates") else best
         cands.foldl (fun (acc : Option (Out × Nat) × Nat × (Nat × String)) (v, tv') => match acc with
           | (some r, b, bs) => (some r, b, bs)
-          | (none, b, bs) => dfs run got evw lines complete choices (inp ++ [v]) tv' b bs) (none, budget - 1, best)
+          | (none, b, bs) => dfs run got evw extc lines complete choices (inp ++ [v]) tv' b bs) (none, budget - 1, best)
 
 def finishSearch (d : D) (t : Nat) (th : Thr) (c : Call) (complete : Bool) : Except String D := do
   let lines := c.lines.reverse
@@ -356,11 +390,29 @@ def finishSearch (d : D) (t : Nat) (th : Thr) (c : Call) (complete : Bool) : Exc
   let priv0 := (if th.priv.isEmpty then initPriv d th.ridx else th.priv)
   let gl : List Loc := [.field (.glob "rcu_gp") "ctr", .field (.glob s!"urcu_{flavor d.mode}_gp") "ctr"]
   let priv0 := gl.map (fun l => (l, c.gpctr0)) ++ priv0.filter (fun p => !(gl.contains p.1))
-  let env : Env := { vars := bindParams c.params c.args, priv := privFn priv0 }
+  let lfht := d.mode == "lfht"
+  let bidx (g : String) : Nat := (((g.drop 1).toString.splitOn "_").headD "0").toNat?.getD 0
+  let privL : Loc → Option Val := fun l =>
+    match l with
+    | .field (.obj k) "reverse_hash" => if lfht then (d.nodeHash.find? (·.1 == k)).map (fun p => Val.int (bitrev64 p.2)) else privFn priv0 l
+    | .field (.glob g) "reverse_hash" => if lfht && g.startsWith "b" then some (.int (bitrev64 (bidx g))) else privFn priv0 l
+    | .field (.glob "ht") _ => if lfht then some (.int 0) else privFn priv0 l      -- plain configuration words of the table
+    | _ => privFn priv0 l
+  let env : Env := { vars := bindParams c.params c.args, priv := if lfht then privL else privFn priv0 }
   let choices : List Val := [.int 0, .int 1] ++ (List.range 8).map fun r => Val.ptr (.obj (r + 1))
+  let extc : String → List Val → Option (List Val) := fun name eargs =>
+    if !lfht then none else
+    match name, eargs with
+    | "bit_reverse_ulong", [.int h] => some [.int (bitrev64 h.toNat)]
+    | "(*bucket_at)", [_, _, .int i] => some ((d.buckets.filter fun g => bidx g == i.toNat).map fun g => Val.ptr (.glob g))
+    | "(*bucket_at)", [_, .int i] => some ((d.buckets.filter fun g => bidx g == i.toNat).map fun g => Val.ptr (.glob g))
+    | "check_resize", _ => some [.int 0]
+    | "ht_count_add", _ => some [.int 0]
+    | "ht_count_del", _ => some [.int 0]
+    | _, _ => none
   let budget := 40000
   let (res, left, best) := dfs (fun inp => exec 100000 c.fn env inp) (fun o => o.events.filterMap (evWords d.mode th.ridx))
-    (evWords d.mode th.ridx) lines complete
+    (evWords d.mode th.ridx) extc lines complete
     choices [] tv budget (0, "")
   match res with
   | some (out, n) =>
@@ -373,7 +425,7 @@ def finishSearch (d : D) (t : Nat) (th : Thr) (c : Call) (complete : Bool) : Exc
     if left == 0 then
       .ok ({ d with cov := bump d.cov (c.op ++ ":search-budget") }.setT t { th with cur := none })
     else
-      .error s!"{c.op}: no answers of the list operations make the source IR produce the {lines.length} events of the compiled call (search space exhausted after {budget - left} runs; furthest: {best.2})"
+      .error s!"{c.op}: no answers of the list operations make the source IR produce the {lines.length} events of the compiled call (search space exhausted after {budget - left} runs; furthest: {best.2}; traced values {repr tv}; buckets {d.buckets})"
 
 /-- run the IR of a finished (or cut) call and compare -/
 def finish (d : D) (t : Nat) (th : Thr) (c : Call) (complete : Bool) : Except String D := do
@@ -414,15 +466,40 @@ def drive (d : D) (ws : List String) : Except String D :=
     | some tid =>
       let th := d.getT tid
       let th := if d.mode == "defer" && th.ridx == 0 then { th with ridx := tid } else th
+      -- lfht bookkeeping: bucket names seen, node hashes, the thread's last iterator
+      let d := if d.mode == "lfht" then
+          let bs := rest.filterMap fun w =>
+            let w1 := if w.startsWith "&" then (w.drop 1).toString else w
+            let w2 := (w1.splitOn "|").headD w1
+            if w2.startsWith "b" && w2.contains '_' && (w2.drop 1).toString.front.isDigit && !(d.buckets.contains w2) then some w2 else none
+          { d with buckets := d.buckets ++ bs.eraseDups }
+        else d
+      let d := match rest with
+        | "CALL" :: op :: n :: h :: _ =>
+          if d.mode == "lfht" && op.startsWith "add" || op == "replace" then
+            match objOfName n, h.toNat? with
+            | some k, some hv => { d with nodeHash := (k, hv) :: d.nodeHash.filter (·.1 != k) }
+            | _, _ => d
+          else d
+        | _ => d
+      let th := match rest with
+        | "RET" :: op :: n :: _ => if d.mode == "lfht" && op ∈ ["lookup", "first", "next", "next_dup"] then { th with lastIter := n } else th
+        | _ => th
       match rest with
       | ["READER", r] => .ok (d.setT tid { th with ridx := r.toNat?.getD 0 })
       | "CALL" :: c =>
         match th.cur with
         | some _ => .ok d        -- nested marker (wrapper inside a call): keep collecting
         | none =>
-          match callSpec d c with
+          let spec := if d.mode == "lfht" && c == ["del"] then
+              (if th.lastIter == "0" || th.lastIter == "" then
+                some ("lfht.del", UrcuVerif.Gen.Src.«lfht.cds_lfht_del», UrcuVerif.Gen.Src.«lfht.cds_lfht_del.params», [Val.ptr (.glob "ht"), Val.int 0])
+               else (objOfName ((th.lastIter.drop 1).toString)).map fun k =>
+                ("lfht.del", UrcuVerif.Gen.Src.«lfht.cds_lfht_del», UrcuVerif.Gen.Src.«lfht.cds_lfht_del.params», [Val.ptr (.glob "ht"), Val.ptr (.obj k)]))
+            else callSpec d c
+          match spec with
           | some (op, fn, ps, as) =>
-            .ok (d.setT tid { th with cur := some { op := op, fn := fn, params := ps, args := as, search := op.endsWith ".sync", gpctr0 := d.gpctr } })
+            .ok (d.setT tid { th with cur := some { op := op, fn := fn, params := ps, args := as, search := op.endsWith ".sync" || op.startsWith "lfht.", gpctr0 := d.gpctr } })
           | none => .ok { d with cov := bump d.cov s!"skipped:{c.headD ""}" }
       | "RET" :: _ =>
         match th.cur with
